@@ -17,6 +17,7 @@ import (
 	"sort"
 	"strconv"
 	"strings"
+	"sync"
 	"unicode"
 
 	"github.com/elliotchance/gedcom/v39"
@@ -165,9 +166,13 @@ func c18ProgWire(name string, env *c18Env) (string, []string) {
 // ---- inputs ----
 
 type c18ProgGen struct {
-	r    *Rand
-	mode int // 0 random; 1 every value empty; 2 `"><script>`; 3 every special character
-	miss *[]string
+	r       *Rand
+	mode    int // 0 random; 1 every value empty; 2 `"><script>`; 3 every special character
+	miss    *[]string
+	nPlaces int // size of the places map the component under test is given (0: nil map)
+	// page names under the places map the component under test is given (nil: the nil map)
+	pageIndividual func(doc *gedcom.Document, ind *gedcom.IndividualNode, vis ghtml.LivingVisibility) string
+	pagePlace      func(place string) string
 }
 
 func (g *c18ProgGen) data() string {
@@ -312,7 +317,24 @@ func (g *c18ProgGen) ga() string {
 func (g *c18ProgGen) nest(name string, env *c18Env) string {
 	w, missing := c18ProgWire(name, env)
 	*g.miss = append(*g.miss, missing...)
+	c18ProgNestedMu.Lock()
+	c18ProgNested[name] = true
+	c18ProgNestedMu.Unlock()
 	return "P " + w
+}
+
+func (g *c18ProgGen) pIndividual(doc *gedcom.Document, ind *gedcom.IndividualNode, vis ghtml.LivingVisibility) string {
+	if g.pageIndividual != nil {
+		return g.pageIndividual(doc, ind, vis)
+	}
+	return ghtml.PageIndividual(doc, ind, vis, nil)
+}
+
+func (g *c18ProgGen) pPlace(place string) string {
+	if g.pagePlace != nil {
+		return g.pagePlace(place)
+	}
+	return ghtml.PagePlace(place, nil)
 }
 
 func c18Real(comp core.Component) string { return "html " + hexs(c18Render(comp)) }
@@ -371,7 +393,7 @@ func (g *c18ProgGen) envPlaceLink(place string) *c18Env {
 	e.S["c.place"] = place
 	e.S["PagePlace(c.place, c.placesMap)"] = ""
 	if place != "" {
-		e.S["PagePlace(c.place, c.placesMap)"] = ghtml.PagePlace(place, nil)
+		e.S["PagePlace(c.place, c.placesMap)"] = g.pPlace(place)
 	}
 	return e
 }
@@ -482,7 +504,7 @@ func (g *c18ProgGen) envPublishHeader(doc *gedcom.Document, extraTab, selectedTa
 	e.S["PageStatistics()"] = ghtml.PageStatistics()
 	e.S["c.extraTab"] = extraTab
 	e.I["len(c.document.Individuals())"] = len(doc.Individuals())
-	e.I["len(c.placesMap)"] = 0 // the places map has an unexported element type: nil from outside
+	e.I["len(c.placesMap)"] = g.nPlaces // nil from outside unless the driver took Publisher.Places()
 	e.I["len(c.document.Families())"] = len(doc.Families())
 	e.I["getSurnames(c.document, c.options.LivingVisibility).Len()"] = c18Surnames(doc, o.LivingVisibility).Len()
 	e.I["len(c.document.Sources())"] = len(doc.Sources())
@@ -508,19 +530,19 @@ func (g *c18ProgGen) envFamilyInList(doc *gedcom.Document, fam *gedcom.FamilyNod
 	}
 	e.S[`date := "-"`] = date
 	e.K["husband := NewIndividualLink(c.document, c.family.Husband().Individual(), c.visibility, c.placesMap)"] =
-		c18Real(ghtml.NewIndividualLink(doc, fam.Husband().Individual(), vis, nil))
+		g.nest("IndividualLink", g.envIndividualLink(doc, fam.Husband().Individual(), vis))
 	e.K["wife := NewIndividualLink(c.document, c.family.Wife().Individual(), c.visibility, c.placesMap)"] =
-		c18Real(ghtml.NewIndividualLink(doc, fam.Wife().Individual(), vis, nil))
+		g.nest("IndividualLink", g.envIndividualLink(doc, fam.Wife().Individual(), vis))
 	return e
 }
 
 func (g *c18ProgGen) envParentButtons(doc *gedcom.Document, fam *gedcom.FamilyNode, vis ghtml.LivingVisibility) *c18Env {
 	e := c18NewEnv()
 	e.K["husband := NewIndividualButton(c.document, c.family.Husband().Individual(), c.visibility, c.placesMap)"] =
-		c18Real(ghtml.NewIndividualButton(doc, fam.Husband().Individual(), vis, nil))
+		g.nest("IndividualButton", g.envIndividualButton(doc, fam.Husband().Individual(), vis))
 	e.K["wife := NewIndividualButton(c.document, c.family.Wife().Individual(), c.visibility, c.placesMap)"] =
-		c18Real(ghtml.NewIndividualButton(doc, fam.Wife().Individual(), vis, nil))
-	e.K["svg := NewPlusSVG(false, true, true, true)"] = c18Real(ghtml.NewPlusSVG(false, true, true, true))
+		g.nest("IndividualButton", g.envIndividualButton(doc, fam.Wife().Individual(), vis))
+	e.K["svg := NewPlusSVG(false, true, true, true)"] = g.nest("PlusSVG", g.envPlusSVG(false, true, true, true))
 	return e
 }
 
@@ -538,7 +560,7 @@ func (g *c18ProgGen) envNameAndDates(ind *gedcom.IndividualNode, vis ghtml.Livin
 	name := ghtml.NewIndividualName(ind, vis, unknown)
 	dates := ghtml.NewIndividualDates(ind, vis)
 	e.B["isUnknown || datesAreBlank"] = name.IsUnknown() || dates.IsBlank()
-	e.K["name := NewIndividualName(c.individual, c.visibility, c.unknownText)"] = c18Real(name)
+	e.K["name := NewIndividualName(c.individual, c.visibility, c.unknownText)"] = g.nest("IndividualName", g.envIndividualName(ind, vis, unknown))
 	e.K["dates := NewIndividualDates(c.individual, c.visibility)"] = g.nest("IndividualDates", g.envIndividualDates(ind, vis))
 	return e
 }
@@ -568,6 +590,10 @@ func (g *c18ProgGen) envPlusSVG(top, left, right, bottom bool) *c18Env {
 func (g *c18ProgGen) pageGA(name, ga string, e *c18Env) {
 	e.GA = ga
 }
+
+// programs that were evaluated as a child of a driven component
+var c18ProgNested = map[string]bool{}
+var c18ProgNestedMu sync.Mutex
 
 type c18ProgDriver struct {
 	name string
@@ -799,7 +825,14 @@ func c18ProgDrivers() []c18ProgDriver {
 // c18ProgramTie: the byte tie of the translated component programs.
 func c18ProgramTie(c *Ctx) {
 	progs, untr := c18PagePrograms(), c18PageUntranslated()
-	drivers := c18ProgDrivers()
+	drivers := append(append(c18ProgDrivers(), c18ProgDrivers2()...), c18ProgDrivers3()...)
+	drivers = append(drivers, c18ProgDrivers4()...)
+	drivers = append(drivers, c18ProgDrivers5()...)
+	drivers = append(drivers, c18ProgDrivers6()...)
+	drivers = append(drivers, c18ProgDrivers7()...)
+	for _, d := range drivers {
+		c18ProgEnvKnown[d.name] = true
+	}
 	driven := map[string]bool{}
 	var tied, notTied []string
 	show := os.Getenv("C18_PROG_SHOW") != ""
@@ -886,6 +919,10 @@ func c18ProgramTie(c *Ctx) {
 	for _, p := range progs {
 		names = append(names, p.Name)
 		if !driven[p.Name] {
+			if c18ProgNested[p.Name] {
+				tied = append(tied, p.Name+" [as a child only]")
+				continue
+			}
 			notDriven = append(notDriven, p.Name)
 		}
 	}
